@@ -22,6 +22,11 @@ Theorem C19_hexuint64_print : forall n : N,
 Proof. exact HexUint64_print. Qed.
 Print Assumptions C19_hexuint64_print.
 
+(* the canonical form of n is unique, so the two theorems above determine the printed text *)
+Theorem C19_canonical_hex_unique : forall (s s' : bytes) (n : N), canonical_hex s n -> canonical_hex s' n -> s = s'.
+Proof. exact canonical_hex_unique. Qed.
+Print Assumptions C19_canonical_hex_unique.
+
 (* ---- 2. print/parse round trip, all n (all n < 2^64 for the 64-bit type) ---- *)
 Theorem C19_hexint_roundtrip : forall lex (n : N),
   lex_law lex -> HexInteger_UnmarshalJSON lex (HexInteger_MarshalJSON (Z.of_N n)) = Ok (Z.of_N n).
